@@ -41,15 +41,18 @@ type why struct {
 	Kind   string `json:"kind"`
 	Opnd   string `json:"opnd"`
 	Mag    string `json:"mag"`
+	Cls    string `json:"cls"`
+	Root   string `json:"root"`
 }
 
 type outRes struct {
-	St   string   `json:"st"`
-	Lim  bool     `json:"lim"`
-	C    outConst `json:"c"`
-	Why  why      `json:"why"`
-	Tags []string `json:"tags"`
-	Nrej int      `json:"nrej"`
+	St    string   `json:"st"`
+	Lim   bool     `json:"lim"`
+	Inner bool     `json:"inner"`
+	C     outConst `json:"c"`
+	Why   why      `json:"why"`
+	Tags  []string `json:"tags"`
+	Nrej  int      `json:"nrej"`
 }
 
 type spec struct {
@@ -70,6 +73,9 @@ type kase struct {
 	Specs []spec   `json:"specs"`
 	Vals  []outRes `json:"vals"`
 	Res   outRes   `json:"res"`
+	// Obs is set by the harness: "" observes the constant through a variable of its
+	// default type; "arg" passes the constant expression directly as a call argument.
+	Obs string `json:"obs,omitempty"`
 }
 
 func digits(d []int) string {
@@ -211,7 +217,7 @@ func renderExpr(toks []tok, lits []dec) (string, error) {
 			st = append(st, "len("+x+")")
 		case "arrlen":
 			x := pop()
-			st = append(st, "len([" + x + "]int{})")
+			st = append(st, "len(["+x+"]int{})")
 		default:
 			return "", fmt.Errorf("unknown token %q", t.K)
 		}
@@ -224,26 +230,51 @@ func renderExpr(toks []tok, lits []dec) (string, error) {
 
 // prog is a rendered case: the program, what it must print when accepted.
 type prog struct {
-	Src     string `json:"src"`
-	Want    string `json:"want"`    // expected stdout when the case is accepted
-	Neutral string `json:"neutral"` // program without a direct comparison of inexact untyped values ("" if none)
-	NWant   string `json:"nwant"`
+	Src     string   `json:"src"`
+	Want    string   `json:"want"`    // expected stdout when the case is accepted
+	Neutral string   `json:"neutral"` // program without a direct comparison of inexact untyped values ("" if none)
+	NWant   string   `json:"nwant"`
 	PTypes  []string `json:"ptypes"` // expected %T lines, in order (for the reference)
 }
 
-// observation lines for a constant expression e predicted to be the constant c
-func obsLines(e string, c outConst, direct bool) (lines []string, want []string, ptypes []string) {
+// observation lines for a constant expression e predicted to be the constant c.
+// A constant its default type holds exactly is stored in a variable (v := e) and the
+// variable is printed (compared with the predicted literal for floats, whose printed
+// form the specification does not describe); with arg the expression itself is the
+// call argument.  The others are compared as constants with the predicted literal -
+// directly (direct) or, in the neutral program, through a subtraction.
+func obsLines(e string, c outConst, direct, arg bool, id int) (lines []string, want []string, ptypes []string) {
 	lit := c.literal()
-	if direct {
-		lines = append(lines, fmt.Sprintf("fmt.Println((%s) == %s)", e, lit))
-		want = append(want, "true")
+	v := fmt.Sprintf("v%d", id)
+	viaVar := !c.Inexact && c.Ptype != "" && !arg
+	if viaVar {
+		lines = append(lines, fmt.Sprintf("%s := %s", v, e))
+	} else {
+		v = e
 	}
-	if c.numericUntyped() {
-		lines = append(lines, fmt.Sprintf("fmt.Println(((%s) - (%s)) == 0)", e, lit))
+	switch {
+	case c.Class == "bool":
+		lines = append(lines, fmt.Sprintf("fmt.Println(%s)", v))
+		want = append(want, lit)
+	case c.Class == "string":
+		lines = append(lines, fmt.Sprintf("fmt.Printf(\"%%q\\n\", %s)", v))
+		rs := make([]rune, len(c.Str))
+		for i, x := range c.Str {
+			rs[i] = rune(x)
+		}
+		want = append(want, strconv.Quote(string(rs)))
+	case c.Class != "float" && !c.Inexact:
+		lines = append(lines, fmt.Sprintf("fmt.Println(%s)", v))
+		want = append(want, lit)
+	case viaVar || direct:
+		lines = append(lines, fmt.Sprintf("fmt.Println((%s) == %s)", v, lit))
+		want = append(want, "true")
+	default:
+		lines = append(lines, fmt.Sprintf("fmt.Println(((%s) - (%s)) == 0)", v, lit))
 		want = append(want, "true")
 	}
 	if c.Ptype != "" {
-		lines = append(lines, fmt.Sprintf("fmt.Printf(\"%%T\\n\", %s)", e))
+		lines = append(lines, fmt.Sprintf("fmt.Printf(\"%%T\\n\", %s)", v))
 		want = append(want, c.Ptype)
 		ptypes = append(ptypes, c.Ptype)
 	}
@@ -281,10 +312,10 @@ func (k *kase) render() (prog, error) {
 		if !k.accepted() {
 			return prog{Src: mainOf("", []string{fmt.Sprintf("fmt.Println(%s)", e)})}, nil
 		}
-		l, w, pt := obsLines(e, k.Res.C, true)
+		l, w, pt := obsLines(e, k.Res.C, true, k.Obs == "arg", 0)
 		p := prog{Src: mainOf("", l), Want: joinWant(w), PTypes: pt}
 		if k.Res.C.Inexact {
-			l2, w2, _ := obsLines(e, k.Res.C, false)
+			l2, w2, _ := obsLines(e, k.Res.C, false, k.Obs == "arg", 0)
 			p.Neutral, p.NWant = mainOf("", l2), joinWant(w2)
 		}
 		return p, nil
@@ -408,9 +439,9 @@ func (k *kase) renderBlock() (prog, error) {
 			if s.Blank || j >= len(k.Vals) {
 				continue
 			}
-			l, w, pt := obsLines(names[j], k.Vals[j].C, true)
+			l, w, pt := obsLines(names[j], k.Vals[j].C, true, false, j)
 			body, want, ptypes = append(body, l...), append(want, w...), append(ptypes, pt...)
-			l2, w2, _ := obsLines(names[j], k.Vals[j].C, !k.Vals[j].C.Inexact)
+			l2, w2, _ := obsLines(names[j], k.Vals[j].C, !k.Vals[j].C.Inexact, false, j)
 			nbody, nwant = append(nbody, l2...), append(nwant, w2...)
 			inexact = inexact || k.Vals[j].C.Inexact
 		}
